@@ -113,7 +113,7 @@ PROPS["C02"] = dict(
     assumptions=["releases are observed at storage/lock-operation granularity (harness-owned schedule)", "SCT signature correctness over real chains is covered by the HTTP-level unit and by C09"],
     technique="stateful property-based testing with harness-owned scheduling of concurrent submitters on a fault-injecting simulator",
     units=[
-        sim("^TestVerifC02Acks$", 250, 1200, files=["sim*.go", "c02*.go"]),
+        sim("^TestVerifC02Acks$", 250, 1200, files=["sim*.go", "c02*.go", "c09_forest.go:pkg=ctlog", "c09_oracle.go:pkg=ctlog"]),
     ],
 )
 
